@@ -154,6 +154,30 @@ pub const FAMILIES: &[(&str, &str, &str, &str)] = &[
     ("then-else", "%if 1 ", "%then %else ", ";"),
     ("macro-in-arg", "%m(", "%n(", ""),
     ("to-by", "%do i=1 ", "%to 2 %by 1 ", ";"),
+    // runs that produce only hidden / comment tokens (look-behind scans over them)
+    ("str-empty", "", "%str()", ""),
+    ("nrstr-empty", "x ", "%nrstr()", ";"),
+    ("comment-run", "", "/**/", ""),
+    ("ws-catchall-run", "", " \\", ""),
+    ("str-empty-then-stmt", "", "%str()%str() ", "%let a=1;"),
+    ("hidden-run-in-eval", "%eval(1", " /**/", "+1)"),
+    // long ampersand runs that are not macro variables, in every text scanner
+    ("amp-run-in-str", "%str(a", "&", ")"),
+    ("amp-run-in-nrstr", "%nrstr(a", "&", ")"),
+    ("amp-run-in-call", "%m(a", "&", ")"),
+    ("amp-run-in-let", "%let a=b", "&", ";"),
+    ("amp-run-in-dq", "\"a", "&", "\""),
+    ("amp-run-in-opts", "%macro m / a", "&", ";"),
+    ("amp-run-in-eval", "%eval(a", "&", " 1)"),
+    ("percent-run-in-str", "%str(a", "% ", ")"),
+    ("percent-run-in-eval", "%eval(a", "% ", ")"),
+    ("mnemonic-letters-in-eval", "%eval(", "e", ")"),
+    ("name-parts", "%let ", "a&b.", "=1;"),
+    ("datalines-kw-run", ";", "datalines ", ";"),
+    ("dollar-run", "", "$", ""),
+    ("dollar-name-run", "", "$a1", ""),
+    ("label-run", "x ", "%l: ", ""),
+    ("stmt-no-semi", "", "%put a %let b=1 ", ""),
 ];
 
 pub fn family(idx: usize, n: usize) -> String {
